@@ -133,6 +133,15 @@ class Closure:
             b = self.val(e.value, env)
             if b[0] in ("arr", "pop"):
                 return b
+            if b[0] == "list":  # a list of populations: an element, or a sub-list
+                return b if isinstance(e.slice, ast.Slice) else ("pop", C if b[1] == "EMPTY" else b[1])
+            return ("other", None)
+        if isinstance(e, ast.List):
+            vs = [self.val(x, env) for x in e.elts]
+            if not vs:
+                return ("list", "EMPTY")
+            if all(v[0] == "pop" for v in vs):
+                return ("list", _join(*[v[1] for v in vs]))
             return ("other", None)
         if isinstance(e, ast.IfExp):
             a, b = self.val(e.body, env), self.val(e.orelse, env)
@@ -322,6 +331,11 @@ def analyse_operator(ctx: Ctx, ci, m, handled):
     def node_fn(n, s):
         env = dict(s)
         a = n.ast
+        if n.kind == "forhead" and isinstance(n.stmt, ast.For) and isinstance(n.stmt.target, ast.Name):
+            it = interp.val(n.stmt.iter, env)
+            if it[0] == "list":
+                env[n.stmt.target.id] = ("pop", C if it[1] == "EMPTY" else it[1])
+                return [freeze(env)]
         if a is None or n.kind in ("cond", "forhead", "except", "withenter"):
             return [s]
         if isinstance(a, ast.AnnAssign) and a.value is not None and isinstance(a.target, ast.Name):
@@ -342,7 +356,12 @@ def analyse_operator(ctx: Ctx, ci, m, handled):
                 _scan_sinks(interp, a.value, env, n, sinks)
         elif isinstance(a, ast.Expr) and isinstance(a.value, ast.Call):
             c = a.value
-            if isinstance(c.func, ast.Attribute) and c.func.attr == "update_genome" and c.args:
+            if isinstance(c.func, ast.Attribute) and c.func.attr == "append" and len(c.args) == 1 and isinstance(c.func.value, ast.Name) and env.get(c.func.value.id, ("other",))[0] == "list":
+                v = interp.val(c.args[0], env)
+                cur = env[c.func.value.id][1]
+                new = v[1] if v[0] == "pop" else U
+                env[c.func.value.id] = ("list", new if cur == "EMPTY" else _join(cur, new))
+            elif isinstance(c.func, ast.Attribute) and c.func.attr == "update_genome" and c.args:
                 g = interp.val(c.args[0], env)
                 cl = g[1] if g[0] == "arr" else U
                 sinks.append((n, f"update_genome({norm(c.args[0])})", cl))
@@ -461,7 +480,21 @@ def r01_2(ctx: Ctx):
                     while isinstance(xr, ast.Name) and xr.id in d and len(d[xr.id]) == 1:
                         xr = d[xr.id][0]
                     okx = xr is not None and norm(xr).endswith("_sprout_seed.genome")
-                    obs.append(ctx.ob("R01.2", f, cs.node, status=OK if okx else VIOLATION, detail=f"{ci.name}: the local search starts at the sprout seed" if okx else f"{ci.name}: the local search starts at `{norm(xr) if xr is not None else '?'}`, not at the (box-closed) sprout seed", construct=f"{ci.name}:scipy-x0"))
+                    st_x = OK if okx else VIOLATION
+                    if not okx and isinstance(xr, ast.Name) and xr.id in f.params():
+                        # the start point is a parameter of a helper: look at what its callers in the class pass
+                        k = f.params().index(xr.id) - (1 if f.self_name() else 0)
+                        passed = []
+                        for g in ctx.prog.functions_in(ci):
+                            for c2 in body_walk(g.node):
+                                if isinstance(c2, ast.Call) and isinstance(c2.func, ast.Attribute) and c2.func.attr == f.name and isinstance(c2.func.value, ast.Name):
+                                    a_ = c2.args[k] if 0 <= k < len(c2.args) else next((kw.value for kw in c2.keywords if kw.arg == xr.id), None)
+                                    passed.append(canon(a_, local_defs(g)) if a_ is not None else "?")
+                        st_x = OK if passed and all(t.endswith("_sprout_seed.genome") for t in passed) else INCONCLUSIVE
+                        okx = st_x == OK
+                    elif not okx and not (isinstance(xr, (ast.Constant, ast.Call, ast.BinOp)) or (xr is not None and ("bounds" in norm(xr) or "zeros" in norm(xr)))):
+                        st_x = INCONCLUSIVE
+                    obs.append(ctx.ob("R01.2", f, cs.node, status=st_x, detail=f"{ci.name}: the local search starts at the sprout seed" if okx else f"{ci.name}: the local search starts at `{norm(xr) if xr is not None else '?'}`, not at the (box-closed) sprout seed", construct=f"{ci.name}:scipy-x0"))
     # external helpers that evaluate a callable of ours at points of their own choosing, without bounds (table, DESIGN §9)
     UNBOUNDED_PROBES = ("scipy.optimize.approx_fprime", "scipy.optimize.check_grad", "scipy.misc.derivative", "scipy.optimize.line_search", "scipy.optimize.fmin", "scipy.optimize.fmin_bfgs", "scipy.optimize.fmin_cg", "scipy.optimize.fmin_powell")
     for ci in ctx.concrete_demes():
@@ -554,6 +587,16 @@ def _genome_source_ok(ctx, ci, f, g, sn, defs):
                     src = defs[src.id][0]
                 ok, why = _affine_ok(ctx, ci, f, src, sn, defs)
                 return ok, why
+    # an affine expression over a comprehension variable that runs over the rows of a unit-cube sample
+    if isinstance(g, ast.BinOp):
+        gnames = {x.id for x in ast.walk(g) if isinstance(x, ast.Name)}
+        for n in body_walk(f.node):
+            if isinstance(n, ast.comprehension) and isinstance(n.target, ast.Name) and n.target.id in gnames:
+                it = n.iter
+                while isinstance(it, ast.Name) and it.id in defs and len(defs[it.id]) == 1:
+                    it = defs[it.id][0]
+                if isinstance(it, ast.Call) and isinstance(it.func, ast.Attribute) and it.func.attr == "random" and is_self_attr(it.func.value, None, sn):
+                    return _affine_ok(ctx, ci, f, g, sn, defs, unit_names=(n.target.id,))
     # copies of arrays handed over by scipy (bounds passed to scipy are checked separately)
     # cma's distribution mean lives in genotype space, before the boundary transform: not box-closed (table, DESIGN §9)
     inner = r.args[0] if isinstance(r, ast.Call) and norm(r.func) in ("np.copy", "np.array", "np.asarray") and r.args else r
